@@ -23,6 +23,7 @@ pub mod backlog;
 pub mod product;
 pub mod queue;
 pub mod srvq;
+pub mod twoservers;
 pub mod c19;
 
 pub fn all() -> Vec<Box<dyn Check>> {
